@@ -20,3 +20,6 @@ impl vstd::std_specs::convert::FromSpecImpl<u32> for BigNum { open spec fn obeys
 pub type Slot32 = u32;
 pub type TransactionIndex = u32;
 pub type CertificateIndex = u32;
+// derived `Clone` of the two 28-byte hash newtypes (trusted: derive expansion)
+impl Clone for Ed25519KeyHash { #[verifier::external_body] fn clone(&self) -> (r: Self) ensures r == *self { unimplemented!() } }
+impl Clone for ScriptHash { #[verifier::external_body] fn clone(&self) -> (r: Self) ensures r == *self { unimplemented!() } }
